@@ -1,6 +1,7 @@
 pub mod big;
 pub mod result;
 pub mod segpair;
+pub mod stage;
 pub mod splay;
 
 use crate::exec::Prec;
@@ -118,6 +119,42 @@ pub fn spec(id: &str, tier: Tier) -> Option<Spec> {
             families: pair_families(tier, 16_000, 2_400_000, true, false),
             spaces: vec![],
             check: Box::new(|c, o| result::c05(c, o, Prec::F64)),
+            assumptions,
+            want_c: false,
+        },
+        "C13" => Spec {
+            id: "C13",
+            rule: "robust-domain operand pairs; fill_queue and subdivide are called directly for all 4 operations. Queue filling: 2 events per non-degenerate edge, mutual links, one left flag per pair, left first, each pair an edge of its operand, bounding boxes bitwise equal to the min/max over the operand's edge endpoints. Subdivision: links, left-before-right, non-zero length; planarity of all pairs of fully processed sub-segments by exact predicates (coincident twins must belong to different operands); every sub-segment on an edge of its operand; for complete sweeps (union, xor, and intersection/difference without early stop) the sub-segments on every input edge chain bitwise from one endpoint to the other and account for all sub-segments. Non-trivial: at least one division happened (more sub-segments than input edges).",
+            design_ref: "§5 C13",
+            families: pair_families(tier, 24_000, 2_400_000, false, false),
+            spaces: match tier {
+                Tier::Quick => vec![rect_pair_space("all bitmap pairs on the 2x2 unit grid", 2, 2)],
+                Tier::Thorough => vec![rect_pair_space("all bitmap pairs on the 3x2 unit grid", 3, 2)],
+            },
+            check: Box::new(stage::c13),
+            assumptions,
+            want_c: false,
+        },
+        "C14" => Spec {
+            id: "C14",
+            rule: "robust-domain operand pairs, all 4 operations, every processed left event (sub-segment): side points just below/above its midpoint (vertical: right/left), shrunk until the probe is clear of all other sub-segments and input edges (otherwise skipped and counted); exact even-odd membership of the side points in the input operands decides in_out, other_in_out, edge type, in_result and the transition direction (for coincident twins: exactly one carries the boundary, with the direction of the combined change); prev_in_result must be a processed, earlier, non-vertical left event in the result, and for result edges `region below is inside the result` must equal `recorded lower result edge exists and is OutIn`. Non-trivial: the case has a twin pair or a vertical sub-segment with a same-operand contact, and a sub-segment in the result.",
+            design_ref: "§5 C14",
+            families: pair_families(tier, 24_000, 2_400_000, false, false),
+            spaces: match tier {
+                Tier::Quick => vec![rect_pair_space("all bitmap pairs on the 2x2 unit grid", 2, 2), rect_pair_space("all bitmap pairs on the 3x2 unit grid", 3, 2)],
+                Tier::Thorough => vec![rect_pair_space("all bitmap pairs on the 3x2 unit grid", 3, 2), rect_pair_space("all bitmap pairs on the 3x3 unit grid", 3, 3)],
+            },
+            check: Box::new(stage::c14),
+            assumptions,
+            want_c: false,
+        },
+        "C15" => Spec {
+            id: "C15",
+            rule: "the event sets of robust-domain operand pairs before subdivision (as created by fill_queue) and after (processed events), one operation per case, capped at 160 events, plus generated stars of up to 12 edges around one vertex (both directions, verticals, both operands): all ordered pairs (never Equal, antisymmetric, agreement with the reference order x, y, right-before-left, lower segment first by exact orientation), all triples up to 60 events / 20000 sampled triples beyond (transitivity); compare_segments on all pairs of left events with overlapping x-extent (Equal iff identical, antisymmetric, Less iff below wherever the reference decides the vertical order of non-crossing segments). Non-trivial: the set contains two events at one point or a collinear pair.",
+            design_ref: "§5 C15",
+            families: pair_families(tier, 8_000, 1_000_000, false, false),
+            spaces: vec![],
+            check: Box::new(stage::c15),
             assumptions,
             want_c: false,
         },
